@@ -16,7 +16,9 @@ import (
 	"runtime/debug"
 	"sort"
 	"strconv"
+	"strings"
 	"sync"
+	"sync/atomic"
 	"time"
 )
 
@@ -38,8 +40,15 @@ type Check struct {
 	assume   []string
 	replay   map[string]func(json.RawMessage) string
 	extra    map[string]any
-	deadline time.Time
+	deadline atomic.Int64 // unix nanoseconds; read by workers
+	// sweep: the free-running -race pass of the same harness bodies (VERIF_RACE_SWEEP): every family gets a
+	// short time budget on real goroutines under the race detector; nothing it reports counts as enumeration.
+	sweep       bool
+	sweepBudget time.Duration
 }
+
+// SweepPrefix marks the families of the free-running -race pass in the evidence.
+const SweepPrefix = "free-running-race/"
 
 type violation struct {
 	Family string          `json:"family"`
@@ -103,10 +112,30 @@ func NewCheck(id string) *Check {
 		// lazier collector roughly doubles throughput.
 		debug.SetGCPercent(800)
 	}
-	c.deadline = c.start.Add(time.Duration(capS * float64(time.Second)))
+	c.deadline.Store(c.start.Add(time.Duration(capS * float64(time.Second))).UnixNano())
+	if os.Getenv("VERIF_RACE_SWEEP") != "" {
+		c.sweep = true
+		b := 2.0
+		if f, err := strconv.ParseFloat(os.Getenv("VERIF_RACE_FAMILY_S"), 64); err == nil && f > 0 {
+			b = f
+		}
+		c.sweepBudget = time.Duration(b * float64(time.Second))
+	}
 	c.loadKnown()
+	panicSink = func(msg string) {
+		f := c.Family("uncaught-panic", "a panic of the code under test that escaped the per-case handler of a worker (reported, never ignored)", nil)
+		c.Fail(f, "panic", "worker", msg)
+	}
+	hangSink = func(msg string) {
+		f := c.Family("hang", "a chunk of cases that does not return within the liveness limit (the property requires termination; reported, never waited out)", nil)
+		c.Fail(f, "hang", "worker", msg)
+		os.Exit(c.Finish())
+	}
 	return c
 }
+
+// Sweep reports whether this process is the free-running -race pass.
+func (c *Check) Sweep() bool { return c.sweep }
 
 // Thorough reports whether the thorough tier was requested.
 func (c *Check) Thorough() bool { return c.Tier == "thorough" }
@@ -121,7 +150,15 @@ func Pick[T any](c *Check, q, t T) T {
 
 // TimeUp reports whether the wall-clock safety cap was reached. Hitting the
 // cap is never a failure: families that stop early report exhaustive:false.
-func (c *Check) TimeUp() bool { return time.Now().After(c.deadline) }
+func (c *Check) TimeUp() bool {
+	d := c.deadline.Load()
+	if d == 0 {
+		// free-running pass: a family's budget starts when its enumeration first asks (after its set-up)
+		c.deadline.CompareAndSwap(0, time.Now().Add(c.sweepBudget).UnixNano())
+		return false
+	}
+	return time.Now().UnixNano() > d
+}
 
 func (c *Check) loadKnown() {
 	p := os.Getenv("VERIF_KNOWN")
@@ -163,10 +200,20 @@ func (c *Check) Extra(k string, v any) {
 func (c *Check) Family(name, rule string, replay func(json.RawMessage) string) *Family {
 	c.mu.Lock()
 	defer c.mu.Unlock()
+	if c.sweep && os.Getenv("VERIF_REPLAY") == "" {
+		name = SweepPrefix + name
+	}
 	if f, ok := c.famBy[name]; ok {
 		return f
 	}
 	f := &Family{Name: name, Rule: rule, outcomes: map[string]int64{}, Bounds: map[string]any{}, extra: map[string]any{}, exhaustive: true, t0: time.Now()}
+	if c.sweep {
+		// every family starts with a fresh, short budget; what it covers in that time is a sample
+		c.deadline.Store(0)
+		f.exhaustive = false
+		f.capped = "SAMPLING: the same harness body on real goroutines under the race detector for a fixed time budget; carries the race detector and the concurrent-use oracle only"
+		f.Rule = "SAMPLING (not enumeration), built with -race: " + rule
+	}
 	c.fams = append(c.fams, f)
 	c.famBy[name] = f
 	if replay != nil {
@@ -267,7 +314,7 @@ func (c *Check) Fail(fam *Family, sig string, cas any, msg string) {
 	}
 	c.mu.Lock()
 	for _, k := range c.known {
-		if (k.Family == "" || k.Family == fam.Name) && k.re.MatchString(sig) {
+		if (k.Family == "" || k.Family == strings.TrimPrefix(fam.Name, SweepPrefix)) && k.re.MatchString(sig) {
 			c.nKnown[k.What]++
 			c.mu.Unlock()
 			return
@@ -289,7 +336,11 @@ func (c *Check) Fail(fam *Family, sig string, cas any, msg string) {
 			}
 		}
 		v.Repro = fmt.Sprintf("%d/2", n)
-		if n == 0 {
+		if n == 0 && c.sweep {
+			// The case passes when replayed alone but failed while other goroutines were using the same package:
+			// in the free-running pass that is exactly what shared mutable state looks like.
+			v.Msg = "fails only under concurrent use of the package (passes when replayed alone): " + v.Msg
+		} else if n == 0 {
 			c.mu.Lock()
 			c.nViol--
 			c.unstable = append(c.unstable, v)
@@ -395,6 +446,7 @@ func (c *Check) Finish() int {
 	for k, v := range c.extra {
 		cov[k] = v
 	}
+	cov["max_chunk_s"] = round3(MaxChunk().Seconds())
 	if len(c.unstable) > 0 {
 		cov["unstable"] = c.unstable
 	}
@@ -437,7 +489,9 @@ func (c *Check) Finish() int {
 		fmt.Printf("UNSTABLE (not believed): family=%s sig=%s %s\n", u.Family, u.Sig, u.Msg)
 	}
 	dir := filepath.Join(root, "replays", c.ID)
-	os.RemoveAll(dir) // replay files of earlier runs are stale
+	if os.Getenv("VERIF_KEEP_REPLAYS") == "" {
+		os.RemoveAll(dir) // replay files of earlier runs are stale (the runner clears the directory itself when it runs several binaries)
+	}
 	if c.nViol == 0 {
 		return 0
 	}
@@ -472,6 +526,7 @@ func (c *Check) finishReplay() int {
 		fmt.Printf("HARNESS-ERROR: %v\n", err)
 		return 2
 	}
+	v.Family = strings.TrimPrefix(v.Family, SweepPrefix)
 	rp := c.replay[v.Family]
 	if rp == nil {
 		fmt.Printf("HARNESS-ERROR: family %q has no replay function\n", v.Family)
